@@ -23,17 +23,17 @@ def permutk(l,k):
 # comparisons of its elements.
 def nextperm(l):
     k = len(l)-2
-    while (k>=0 and l[k]>l[k+1]): k -= 1
+    while (k>=0 and l[k]>=l[k+1]): k -= 1
     lpos = k+1
     rpos=len(l)-1
     while lpos<rpos:
         l[lpos],l[rpos] = l[rpos],l[lpos]
         lpos += 1
         rpos -= 1
-    if k==-1:
+    if k<0:
         return l
     i = k+1
-    while (l[i]<l[k]): i+=1
+    while (l[i]<=l[k]): i+=1
     l[i],l[k] = l[k],l[i]
     return l
 
